@@ -4,7 +4,7 @@
 set -e
 cd "$(dirname "$0")"
 chmod +x check
-for f in specs/*.tla; do
+for f in specs/*.tla; do case "$f" in *_TTrace_*) continue;; esac
   out=$(cd specs && java -cp /opt/veriftools/tla/tla2tools.jar:/opt/veriftools/tla/CommunityModules-deps.jar tla2sany.SANY "$(basename "$f")" 2>&1) || { echo "$out"; echo "SANY failed: $f"; exit 1; }
   case "$out" in *"*** Errors"*|*"Fatal errors"*) echo "$out"; echo "SANY errors: $f"; exit 1;; esac
 done
